@@ -8,5 +8,5 @@ PrintShape == phase = "lift" => PrintT(<<"SHAPE", ToJson([ka |-> ka, kb |-> kb, 
 PrintCall == phase = "call" => PrintT(<<"CALL", ToJson([tpl |-> args[1], sigs |-> args[2], calls |-> args[3]])>>)
 \* the lazily evaluated compositions: kinds per argument position, lengths, sharing, traversal law, generator
 PrintLazy == (phase = "lazy" /\ ~args[4]) =>
-                PrintT(<<"LAZY", ToJson([ops |-> args[1], law |-> args[2], gen |-> IF args[3] THEN 1 ELSE 0])>>)
+                PrintT(<<"LAZY", ToJson([ops |-> args[1], law |-> args[2], gen |-> IF args[3] THEN 1 ELSE 0, invs |-> args[5]])>>)
 =============================================================================
